@@ -102,6 +102,8 @@ def run_slice(case, ctx):
         mk = lambda b: None if b is None else (bound(b, grid) if isinstance(b, dict) else datetime.time(*b))
         lb, ub = mk(case['lb']), mk(case['ub'])
         args = (x, lb, ub, oc) if oc else (x, lb, ub)
+        if case.get('tuple_form') and lb is not None and ub is not None:
+            args = (x, (lb, ub), None, oc) if oc else (x, (lb, ub))       # the two bounds given as one pair
         eff = oc or '(]'
         st, res = ctx.call(df_slice, *args)
         if isinstance(lb, datetime.datetime) or isinstance(ub, datetime.datetime):
@@ -287,6 +289,8 @@ def gen_case(rng):
         span = 20 if grid == 'd' else 60
         ts = gen_index(rng, grid)
         k = rng.choice([1, 1, 2, 3]) if rng.random() > 0.04 else 0       # 0: a frame with timestamps but no columns (a schedule)
+        if ts and rng.random() < 0.15:
+            ts = sorted(ts + [rng.choice(ts) for _ in range(rng.randint(1, 4))])        # repeated timestamps (several ticks on one stamp): rows are still rows
         spec = {'ts': ts, 'cols': [[float(next(ids)) if rng.random() > 0.1 else None for _ in ts] for _ in range(k)], 'frame': k != 1 or rng.random() < 0.2}
         lb, ub = gen_bound(rng, ts, grid, span), gen_bound(rng, ts, grid, span)
         if rng.random() < 0.12 and lb is not None:
@@ -310,7 +314,7 @@ def gen_case(rng):
                 h = rng.choice(hours)
                 return [h, 0, 0, rng.choice([0, 0, 250000, 500000])] if sub else [h, 0]
             return [rng.randrange(24), 30]
-        case = {'kind': 'slice', 'grid': 'h', 'tod': True, 'x': spec, 'lb': pick(), 'ub': pick(), 'oc': rng.choice(['()', '(]', '[)', '[]', None])}
+        case = {'kind': 'slice', 'grid': 'h', 'tod': True, 'x': spec, 'lb': pick(), 'ub': pick(), 'oc': rng.choice(['()', '(]', '[)', '[]', None]), 'tuple_form': rng.random() < 0.2}
         if rng.random() < 0.15:
             which = rng.choice(['lb', 'ub'])
             if case['ub' if which == 'lb' else 'lb'] is not None:
